@@ -249,6 +249,8 @@ func spiceConfig(rng *rand.Rand, in []cfgEntry) []cfgEntry {
 		{Section: "note", Sub: "Multi Line", Key: "text", Value: sp("refgroup.mine.include\nrefs/heads\n")},
 		{Section: "quote", Key: "v", Value: sp(`a "quoted" \ value # ; x`)},
 		{Section: "utf", Key: "v", Value: sp("äöü ✓")},
+		{Section: "huge", Key: "v", Value: sp(strings.Repeat("0123456789", 7000))},    // 70 000 bytes: more than a 64 KiB buffer
+		{Section: "huge", Key: "w", Value: sp(strings.Repeat("abcdefgh", 512) + "x")}, // 4 097 bytes
 	}
 	var out []cfgEntry
 	scopeOf := map[string]string{}
